@@ -123,9 +123,13 @@ func roundTripCase(r *report, w *world, c *fileCase, idx int, claimDomain bool) 
 	if m["eq"] != "1" {
 		tag := "roundtrip"
 		if csd {
-			tag = "csd_accumulator"
+			// the recorded finding explains a difference only in the accumulated Distance of records that carry a
+			// valid compressed_speed_distance: with that value masked on both sides the Files must be equal
+			if r2, err := w.d.ask(fmt.Sprintf("c06 %s %s", maskAccumText(before), maskAccumText(impl.Files[0]))); err == nil && kv(r2)["eq"] == "1" {
+				tag = "csd_accumulator"
+			}
 		}
-		if m["dom"] == "1" || csd {
+		if m["dom"] == "1" || tag == "csd_accumulator" {
 			r.specFail(tag, fmt.Sprintf("Decode(Encode(f)) differs from f at slot.message.field %s", m["diff"]),
 				encReplay(c, before, map[string]interface{}{"bytes_hex": hexs(out.Bytes), "decoded": impl.Files[0], "diff": m["diff"]}))
 		}
